@@ -1044,8 +1044,16 @@ def example_check(prop, mode, tv_module, key, tier, seed, rule, settings=None):
         alt = json.loads(json.dumps(settings))
         alt.update({"root": "runtime_types", "alloc_std": False, "alloc": {"k": "path", "lead": True, "segs": ["alloc"], "args": []},
                     "compact": {"k": "path", "lead": False, "segs": ["crate", "codec", "Compact"], "args": []}})
+        # every third case uses the two middleware hooks of the public API: a type-replacing ty_middleware and a path-pruning ty_path_middleware
+        mwl = [{"ident": n, "expr": "dev::alice", "tree": {"k": "path", "path": {"lead": False, "segs": ["dev", "alice"], "generic": False}}} for n in ("U", "X", "N1", "Tree", "Gen")]
         for i, r in enumerate(recs):
-            r["settings"] = settings if i % 2 == 0 else alt
+            st = json.loads(json.dumps(settings if i % 2 == 0 else alt))
+            if i % 3 == 0:
+                st["mw"], st["droproot"] = mwl, True
+                r["mw"], r["pmw"] = mwl, "droproot"
+            else:
+                r["mw"], r["pmw"] = [], ""
+            r["settings"] = st
     write_ndjson(os.path.join(wd, "cases.ndjson"), recs)
     harness_run(mode, os.path.join(wd, "cases.ndjson"), os.path.join(wd, "obs.ndjson"), jobs=12, stall=30)
     obs = read_ndjson(os.path.join(wd, "obs.ndjson"))
@@ -1092,7 +1100,8 @@ def check_c14(tier, seed):
     base = {"root": "types", "alloc_std": True, "alloc": {"k": "path", "lead": True, "segs": ["std"], "args": []}, "docs": False, "codec": True,
             "has_compact": True, "compact": {"k": "path", "lead": True, "segs": ["codec", "Compact"], "args": []},
             "has_bits": True, "bits": {"k": "path", "lead": True, "segs": ["ext", "DecodedBits"], "args": []},
-            "has_compact_as": False, "compact_as": {"k": "path", "lead": True, "segs": ["codec", "CompactAs"], "args": []}, "derive_calls": [], "subs": []}
+            "has_compact_as": False, "compact_as": {"k": "path", "lead": True, "segs": ["codec", "CompactAs"], "args": []}, "derive_calls": [], "subs": [],
+            "mw": [], "droproot": False}
     return example_check("C14", "rval", "TV_C14.tla", "exprs", tier, seed,
                          EX_RULE + "the tokens are parsed with syn::Expr and TLC judges the projected expression with ExprConforms against the module the generator emits for the same registry and "
                          "settings (literal paths without generics, field names and arity incl. the marker, typed literals in range, tuple/array/vec arity, Compact(..) on explicitly Compact-typed "
